@@ -32,6 +32,7 @@ structure DState where
   begin : BeginInfo := { height := 0, byz := [], signed := [] }
   breq : BeginReq := {}              -- the BeginBlock request as sent (votes in order)
   liveUp : Bool := false             -- the live projection carries candidates' pending updates (`up` keys)
+  seenRaw : List (String × Nat × Bool) := []   -- C26: raw bytes delivered so far ↦ (response code, did the delivery change the ledger)
   lastK : Option Nat := none
   expectCom : Option String := none
   expectVer : Option String := none
@@ -405,6 +406,19 @@ partial def loop (h : IO.FS.Stream) (out : IO.FS.Stream) (ds : DState) : IO Unit
       | some lt =>
         for v in txMonitors ds.params lt chs dumpBefore ds.block ds.comTable do
           out.putStrLn v
+        -- C26: the same signed bytes delivered again. A delivery "charges" when it changes the ledger at all (a rejected
+        -- delivery may only move the failure fee, C03). After a success every later delivery must be free; the known defect
+        -- F4 is a delivery that failed inside Run (fee taken, nonce unchanged) being charged again.
+        let raw := kvGet lt.kvs "raw"
+        let charged := chs.any (fun c => c.old != c.new)
+        if raw != "" then
+          let earlier := ds.seenRaw.filter (fun e => e.1 == raw)
+          if charged then
+            if earlier.any (fun e => e.2.1 == 0) then
+              out.putStrLn s!"VIOL C26 charged-after-success type={lt.t.typ} code={lt.code} sender={toHexPad lt.t.sender 40} nonce={lt.t.nonce}"
+            else if earlier.any (fun e => e.2.2) then
+              out.putStrLn s!"VIOL C26 failed-tx-charged-again type={lt.t.typ} code={lt.code} first-code={(earlier.filter (fun e => e.2.2)).getLast?.map (·.2.1) |>.getD 0} deliveries={earlier.length + 1} sender={toHexPad lt.t.sender 40} nonce={lt.t.nonce} fail_fee={kvGet lt.kvs "tx.fail_fee"}"
+          ds := { ds with seenRaw := (raw, lt.code, charged) :: ds.seenRaw }
         if lt.t.typ == 8 || lt.t.typ == 10 || lt.t.typ == 27 || lt.t.typ == 38 then
           for v in stakingTxMonitor ds.params (State.ofDump dumpBefore) (State.ofDump d) lt.t lt.code ds.block do
             out.putStrLn v
